@@ -203,7 +203,7 @@ TraceEntry ==
    /\ LET f == w.files[ev.i] x == ExpLayout(w).cd[ev.i] IN Check(
         /\ ev.r = "ok" /\ ev.rraw = "ok"
         /\ ev.name.id = f.name.id /\ ev.rawname.id = f.name.id
-        /\ ev.method = f.method /\ ev.date = f.dt[1] /\ ev.time = f.dt[2]
+        /\ ev.method = (IF f.aesinner >= 0 THEN f.aesinner ELSE f.method) /\ ev.date = f.dt[1] /\ ev.time = f.dt[2]
         /\ ev.mode = UnixModeOf(f.sys, f.mode, f.elo) /\ ev.usize = f.usize /\ ev.csize = f.csize /\ ev.crc = f.crc
         /\ ev.hdr = f.hdr /\ ev.dstart = f.dstart /\ ev.chs = x.pos
         /\ ev.rawlen = f.csize
@@ -211,7 +211,7 @@ TraceEntry ==
         /\ ev.is_dir = (f.name.tail # "")
         /\ (f.kind \in {"raw", "old"} => ev.rawcrc = f.rawsrc)
         /\ (Decodable(f) /\ f.kind # "raw" => ev.rc = "ok")
-        /\ (ev.rc = "ok" => ev.content.len = f.usize /\ ev.content.crc = f.crc)
+        /\ (ev.rc = "ok" => ev.content.len = f.usize /\ (f.ae2 \/ ev.content.crc = f.crc))     \* (AE-2 declares no CRC)
         /\ ev.rc # "panic")
    /\ UNCHANGED <<w, res>>
 
